@@ -118,6 +118,8 @@ def print_nodes(nodes, dynamic=False):
             out.append('{%% provide "%s"%s %%}%s{%% endprovide %%}' % (n[1], _kw(n[2]), print_nodes(n[3], dynamic)))
         elif k == "El":
             out.append('<%s data-n="%s">%s</%s>' % (n[1], n[2], print_nodes(n[3], dynamic), n[1]))
+        elif k == "Tick":
+            out.append("{% tick %}")
         elif k == "Boom":
             out.append("{% boom %}" if n[1] == "tag" else "{{ 1|boom }}")
         else:
@@ -135,7 +137,7 @@ def size(nodes):
     return s
 
 
-_KINDS = {"T", "V", "D", "If", "For", "With", "Slot", "Comp", "Fill", "Prov", "El", "Boom"}
+_KINDS = {"T", "V", "D", "If", "For", "With", "Slot", "Comp", "Fill", "Prov", "El", "Boom", "Tick"}
 
 
 def comps_used(nodes, acc=None):
@@ -354,6 +356,8 @@ class Interp:
                     if not isinstance(name, str) or name == MISSING and False:
                         raise ModelError("fill-name-not-string")
                 extracting.append((name, n, env))
+            elif k == "Tick":
+                pass
             elif k == "Boom":
                 raise ModelError("boom")
             else:
